@@ -586,7 +586,8 @@ def ssawalkCmd (rest : String) : String :=
       | some Pf =>
         let hyps := (if c.params.eraseDups.length == c.params.length then [] else ["dup-params"]) ++
           (if (List.range n).all (fun i => (c.block i).succs.all (fun s => (c.block s).preds.contains i) &&
-              (c.block i).preds.all (fun p => (c.block p).succs.contains i)) then [] else ["edges"])
+              (c.block i).preds.all (fun p => decide (p < n) && (c.block p).succs.contains i)) then [] else ["edges"]) ++
+          (if (List.range n).all (fun i => i == 0 || decide (idom i < i)) then [] else ["idom-not-smaller"])
         match SsaWalk.run c Pf idom, sc with
         | .fuel, _ => "fail walk-fuel"
         | .undef, .atom _ => "ok both-fail"
@@ -743,7 +744,7 @@ def propagateCmd (rest : String) : String :=
     let big := 1000000
     let vfuel := (Sexp.nat? vk).getD big
     let dfuel := (Sexp.nat? dk).getD big
-    let (bs1, fixV) := Propagate.valLoop vfuel { prime := prime, vals := [], nonConstant := [] } cfg.blocks
+    let (bs1, fixV) := Propagate.valLoop vfuel (Propagate.valInit prime cfg.blocks) cfg.blocks
     let (bs2, fixD) := Propagate.degLoop dfuel (Propagate.degInit cfg) bs1
     let anns := bs2.flatMap (fun b => b.stmts.flatMap annStmt)
     s!"{fixV} {fixD} " ++ " ".intercalate anns
